@@ -64,10 +64,12 @@ def is_fancy_index(sl: ast.AST) -> bool:
 
 class Roles:
     def __init__(self, prog: Program, roots: Dict[str, Dict[str, Set[str]]],
-                 self_attrs: Optional[Dict[str, Set[str]]] = None, max_iter: int = 40):
+                 self_attrs: Optional[Dict[str, Set[str]]] = None, max_iter: int = 40,
+                 new_as: Optional[Dict[str, str]] = None):
         """roots: func key -> {param name: {paths}};  self_attrs: 'attr' -> {paths} for reads of self.attr"""
         self.prog = prog
         self.self_attrs = self_attrs or {}
+        self.new_as = new_as or {}
         self.env: Dict[str, Dict[str, Set[str]]] = {}
         self.alias: Dict[str, Set[str]] = {}
         self.ret: Dict[str, List[Set[str]]] = {}      # func key -> per tuple position set of paths returned
@@ -98,7 +100,7 @@ class Roles:
                 if p == a or p.startswith(a + ".") or p.startswith(a + "["):
                     suffix = p[len(a):]
                     for t in tgts:
-                        q = t + suffix
+                        q = (t + suffix).replace("<>[]", "")
                         if q not in out and len(q) < 200:
                             out.add(q)
                             work.append(q)
@@ -166,7 +168,8 @@ class Roles:
                 return self.with_alias(out)
             return self.with_alias(r[pos]) if pos < len(r) else set()
         if isinstance(tgt, ClassInfo):
-            return set()
+            # a freshly constructed record object: named by its class (optionally mapped onto a model root)
+            return {self.new_as.get(tgt.name, f"NEW.{tgt.name}")}
         f = e.func
         if isinstance(f, ast.Name):
             if f.id in FRESH_CALLS:
